@@ -26,7 +26,7 @@ func TestMain(m *testing.M) {
 	if sup.IsWorker() {
 		sup.RunWorker()
 	}
-	ev.Note("rule", "C04: rapid-generated schemas of every kind (incl. unrestricted IDs, struct-mapped objects, typed enums, one-of, treat-empty-as-default properties, recursive references). Values: (1) a valid-by-construction raw input with one hostile value substituted at a schema-directed random position (decoder domain: nil, bool, every int/uint/float width, extreme ints, NaN/Inf, strings, []byte, time.Time, big.Int, cbor.Tag, cbor.SimpleValue, []any, map[any]any with mixed keys, map[string]any, typed slices/maps) for Unserialize and data-mode ValidateCompatibility; (2) the same trees plus named scalar types, nil pointers, nil *regexp.Regexp, arrays, structs, complex, chan, func given directly to Validate/Serialize; (3) genuine native values obtained from Unserialize and then damaged by reflection at a random settable location (zeroed, nil-ed, replaced by a foreign value / wrong struct type); (4) deep nesting (10000-deep lists/maps, long recursive chains). Every operation runs in a supervised worker process: outcome value/error is fine, panic (recovered, with top SDK frame), fatal error or no return is a violation. Non-trivial: the value at the chosen position is not what the position expects (substituted or damaged); distinct by (schema, operation, value).")
+	ev.Note("rule", "C04: rapid-generated schemas of every kind (incl. unrestricted IDs, struct-mapped objects, typed enums, one-of, treat-empty-as-default properties, recursive references). Values: (1) a valid-by-construction raw input with one hostile value substituted at a schema-directed random position (decoder domain: nil, bool, every int/uint/float width, extreme ints, NaN/Inf, strings, []byte, time.Time, big.Int, cbor.Tag, cbor.SimpleValue, []any, map[any]any with mixed keys, map[string]any, typed slices/maps) for Unserialize and data-mode ValidateCompatibility; (2) the same trees plus named scalar types, nil pointers, nil *regexp.Regexp, arrays, structs, complex, chan, func given directly to Validate/Serialize; (3) genuine native values obtained from Unserialize and then damaged by reflection at a random settable location (zeroed, nil-ed, replaced by a foreign value / wrong struct type); (4) deep nesting (10000-deep lists/maps, long recursive chains); (5) a complete grid: a fixed catalogue of decoder-domain and native values (every odd scalar, every container type with every kind of odd element, every kind of odd map key incl. nil, time, tag, array keys) x 24 fixed schemas covering every type kind x 5 placements (root, list item, map value, property, property of a one-of member) x the four operations. Every operation runs in a supervised worker process: outcome value/error is fine, panic (recovered, with top SDK frame), fatal error or no return is a violation. Non-trivial: the value at the chosen position is not what the position expects (substituted or damaged); distinct by (schema, operation, value).")
 	ev.RegisterReplay("op", func(t *testing.T, raw json.RawMessage) {
 		var c Case
 		if err := json.Unmarshal(raw, &c); err != nil {
@@ -54,6 +54,8 @@ type Case struct {
 	Deep      string `json:"deep,omitempty"`
 	DeepDepth int    `json:"deep_depth,omitempty"`
 	PosKind   string `json:"pos_kind,omitempty"`
+	// Batch: run Op on each of these values in turn (grid sweep); the answer is a batchResult.
+	Batch []val.V `json:"batch,omitempty"`
 }
 
 type Damage struct {
@@ -130,6 +132,7 @@ func deepValue(kind string, depth int) any {
 func workerFn(raw json.RawMessage) json.RawMessage {
 	var c Case
 	res := result{}
+	var batchAnswer json.RawMessage
 	if err := json.Unmarshal(raw, &c); err != nil {
 		res.Outcome, res.Text = "skip", "bad case: "+err.Error()
 		b, _ := json.Marshal(res)
@@ -139,6 +142,42 @@ func workerFn(raw json.RawMessage) json.RawMessage {
 		sch, err := spec.Build(c.Spec)
 		if err != nil {
 			res.Outcome, res.Text = "skip", err.Error()
+			return
+		}
+		if len(c.Batch) > 0 {
+			br := batchResult{Index: -1, Values: len(c.Batch)}
+			for i, bv := range c.Batch {
+				value := bv.Go()
+				var operr error
+				var pan any
+				var stack string
+				func() {
+					defer func() {
+						if e := recover(); e != nil {
+							pan, stack = e, string(debug.Stack())
+						}
+					}()
+					switch c.Op {
+					case "unserialize":
+						_, operr = sch.Unserialize(value)
+					case "compat":
+						operr = sch.ValidateCompatibility(value)
+					case "validate":
+						operr = sch.Validate(value)
+					case "serialize":
+						_, operr = sch.Serialize(value)
+					}
+				}()
+				if pan != nil {
+					br.Index, br.Text, br.Frame = i, fmt.Sprint(pan), topFrame(stack)
+					break
+				}
+				if operr != nil {
+					br.Errors++
+				}
+			}
+			b, _ := json.Marshal(br)
+			batchAnswer = b
 			return
 		}
 		var value any
@@ -225,6 +264,9 @@ func workerFn(raw json.RawMessage) json.RawMessage {
 			res.Outcome = "value"
 		}
 	}()
+	if batchAnswer != nil {
+		return batchAnswer
+	}
 	b, _ := json.Marshal(res)
 	return b
 }
